@@ -641,8 +641,9 @@ class Function(NameAliasMixin, TokenList):
         for token in parenthesis.tokens:
             if isinstance(token, IdentifierList):
                 return token.get_identifiers()
-            elif imt(token, i=(Function, Identifier, TypedLiteral),
-                     t=T.Literal):
+            elif imt(token, i=(Function, Identifier, TypedLiteral,
+                               Parenthesis, Operation, Comparison, Case),
+                     t=[T.Literal, T.Name.Placeholder]):
                 result.append(token)
         return result
 
